@@ -158,5 +158,6 @@ pub fn c16() -> PropDef {
         adjust: no_adjust,
         assumptions: COMMON_ASSUMPTIONS,
         tiny: no_tiny,
+        long: None,
     }
 }
